@@ -126,7 +126,10 @@ def run(repo, rep, tier):
     body = fi.node.body
     D, F = repo.attrs.DIRNAME, repo.attrs.FREQNAME
     # ---- R-C16-1 ----
-    first_data = next((s for s in body if isinstance(s, ast.Assign)), None)
+    # the first DATA operation: an assignment whose value is more than a name / constant (aliases of the window parameters are not data operations)
+    first_data = next((s for s in body if isinstance(s, ast.Assign) and not isinstance(s.value, (ast.Name, ast.Constant))), None)
+    alias = {s.targets[0].id: s.value.id for s in ast.walk(fi.node) if isinstance(s, ast.Assign) and len(s.targets) == 1 and isinstance(s.targets[0], ast.Name)
+             and isinstance(s.value, ast.Name) and s.value.id in (fw, dw)}
     raises = [n for n in ast.walk(fi.node) if isinstance(n, ast.Raise)]
     covered = set()
     for n in ast.walk(fi.node):
@@ -137,6 +140,7 @@ def run(repo, rep, tier):
             if not is_even:
                 continue
             for nm in names:
+                nm = alias.get(nm, nm)
                 if nm in (fw, dw):
                     covered.add(nm)
                 else:
